@@ -25,6 +25,7 @@ import CC.Groestl.LemmasC512
 import CC.Groestl.LemmasC1024
 import CC.Groestl.Vec256
 import CC.Groestl.Vec512
+import CC.Groestl.Src
 namespace CC.Thm.C07
 open CC CC.Buffer CC.Groestl CC.Groestl.Model
 
@@ -139,5 +140,47 @@ example : Model.digest .debug .g512 [] = .ok (Spec.groestl 512 []) :=
 /-- the length hypothesis is satisfiable far beyond 2^32 bits: -/
 example : Spec.padBlocks 64 (2 ^ 40) < 2 ^ 64 := by decide
 example : Spec.padBlocks 128 (2 ^ 70) < 2 ^ 64 := by decide
+
+/-- **Source tie (literals only).**  Every integer literal above 0xffff of hashes/groestl/src/compressor.rs, per
+    function and in source order, as re-read from the Rust source on every run (tools/inventory_kernels.py →
+    `CC.Gen.Kernels.groestl_literals`, test code dropped): the model definitions that embed such literals —
+    `mul2`, `transposeMask`, `roundConst`, `roundMask`, `O1`, `constP`, `maskP1024`, `constQ`, `maskQ1024`,
+    `stepQ` — equal the same expressions over the regenerated literals (`CC.Src.glit f i` = literal `i` of fn `f`).
+    The intrinsic-level dataflow (closures, `map`, loops) is not translated; it stays tied by the differential
+    correspondence.  Individual facts: `CC.Src.src_groestl_*` (lean/CC/Groestl/Src.lean). -/
+theorem source_kernels_match :
+    CC.Gen.Kernels.groestl_errors = [] ∧
+    CC.Gen.Kernels.groestl_literals.map (fun p => (p.1, p.2.length)) =
+      [("mul2", 1), ("transpose_a", 2), ("round", 21), ("transpose", 2), ("transpose_inv", 2),
+       ("rounds_p", 19), ("rounds_q", 20)] ∧
+    (transposeMask = CC.Groestl.Intrin.mm_set_epi64x (CC.Src.glit "transpose_a" 0) (CC.Src.glit "transpose_a" 1) ∧
+     transposeMask = CC.Groestl.Intrin.mm_set_epi64x (CC.Src.glit "transpose" 0) (CC.Src.glit "transpose" 1) ∧
+     transposeMask = CC.Groestl.Intrin.mm_set_epi64x (CC.Src.glit "transpose_inv" 0) (CC.Src.glit "transpose_inv" 1)) ∧
+    roundMask = CC.Src.x8OfPairs ((CC.Src.glits "round").drop 5) ∧
+    maskP1024 = CC.Src.x8OfPairs ((CC.Src.glits "rounds_p").drop 3) ∧
+    maskQ1024 = (CC.Src.x8OfPairs ((CC.Src.glits "rounds_q").drop 3)).shuffle 1 3 5 7 0 2 4 6 ∧
+    O1 = CC.Src.glit "rounds_p" 0 :=
+  ⟨CC.Src.src_groestl_clean, CC.Src.src_groestl_literal_sites, CC.Src.src_groestl_transposeMask,
+   CC.Src.src_groestl_roundMask, CC.Src.src_groestl_maskP1024, CC.Src.src_groestl_maskQ1024.1,
+   CC.Src.src_groestl_constP.1⟩
+
+/-- … and the literals inside function bodies: `mul2`, `roundConst`, `constP`, `constQ`, `stepQ` over the
+    regenerated literals (see `CC.Src.src_groestl_mul2`, `…_roundConst`, `…_constP`, `…_constQ`, `…_maskQ1024`). -/
+theorem source_literals_match :
+    (roundConst = fun i =>
+      let ff := CC.Src.glit "round" 0
+      let l0 := CC.Groestl.Intrin.mm_set_epi64x ff ((i * CC.Src.glit "round" 1) ^^^ CC.Src.glit "round" 2)
+      let lx := CC.Groestl.Intrin.mm_set_epi64x ff 0#64
+      let l7 := CC.Groestl.Intrin.mm_set_epi64x ((i * CC.Src.glit "round" 3) ^^^ CC.Src.glit "round" 4) 0#64
+      ⟨l0, lx, lx, lx, lx, lx, lx, l7⟩) ∧
+    (constP = fun i =>
+      let i := BitVec.ofNat 64 i
+      CC.Groestl.Intrin.mm_set_epi64x ((i * CC.Src.glit "rounds_p" 0) ^^^ CC.Src.glit "rounds_p" 1)
+        ((i * CC.Src.glit "rounds_p" 0) ^^^ CC.Src.glit "rounds_p" 2)) ∧
+    (constQ = fun i =>
+      let i := BitVec.ofNat 64 i
+      CC.Groestl.Intrin.mm_set_epi64x ((i * CC.Src.glit "rounds_q" 0) ^^^ CC.Src.glit "rounds_q" 1)
+        ((i * CC.Src.glit "rounds_q" 0) ^^^ CC.Src.glit "rounds_q" 2)) :=
+  ⟨CC.Src.src_groestl_roundConst, CC.Src.src_groestl_constP.2, CC.Src.src_groestl_constQ⟩
 
 end CC.Thm.C07
